@@ -26,7 +26,11 @@ def fmt_parts(e, names=None):
                 if v.conversion not in (-1, 115) or v.format_spec is not None:     # !s is the default for our purposes; anything else is kept opaque
                     out.append(("expr", v.value, "conv"))
                 else:
-                    out.append(("expr", v.value))
+                    inner = fmt_parts(v.value, names) if isinstance(v.value, (ast.JoinedStr, ast.Constant, ast.Name)) or _is_format_call(v.value) else None
+                    if inner is not None:
+                        out.extend(inner)             # a string spliced into a string
+                    else:
+                        out.append(("expr", v.value))
         return merge(out)
     if isinstance(e, ast.Call) and isinstance(e.func, ast.Attribute) and e.func.attr == "format" and not e.keywords:
         base = fmt_parts(e.func.value, names)
@@ -45,7 +49,12 @@ def fmt_parts(e, names=None):
             auto += 1
             if idx >= len(e.args):
                 return None
-            out.append(("expr", e.args[idx]))
+            a_ = e.args[idx]
+            inner = fmt_parts(a_, names) if isinstance(a_, ast.JoinedStr) or _is_format_call(a_) or (isinstance(a_, ast.Constant) and isinstance(a_.value, str)) else None
+            if inner is not None:
+                out.extend(inner)
+            else:
+                out.append(("expr", a_))
             pos = m.end()
         out.append(("lit", text[pos:]))
         if "{" in re.sub(r"\{(\d*)\}", "", text).replace("{{", "").replace("}}", ""):
@@ -60,6 +69,46 @@ def fmt_parts(e, names=None):
         if b is not None and is_stringy(e.left):
             return merge([("expr", e.left)] + b)
     return None
+
+
+def _is_format_call(e):
+    return isinstance(e, ast.Call) and isinstance(e.func, ast.Attribute) and e.func.attr == "format" and isinstance(e.func.value, (ast.Constant, ast.JoinedStr))
+
+
+def propagate_templates(fn):
+    """copy propagation of local string templates: a local bound exactly once in the function to a string-building expression
+    (literal, f-string, literal.format(...), concatenation with a literal) whose own free names are never rebound is substituted
+    into its later uses, so `prefix = f"... {line}"; raise E(f"{prefix} ...")` reads like the one-piece message"""
+    stores = {}
+    for n in ast.walk(fn):
+        if isinstance(n, ast.Name) and isinstance(n.ctx, (ast.Store, ast.Del)):
+            stores[n.id] = stores.get(n.id, 0) + 1
+        elif isinstance(n, ast.arg):
+            stores[n.arg] = stores.get(n.arg, 0) + 1
+    cands = {}
+    for n in ast.walk(fn):
+        if isinstance(n, ast.Assign) and len(n.targets) == 1 and isinstance(n.targets[0], ast.Name) and stores.get(n.targets[0].id) == 1:
+            v = n.value
+            parts = fmt_parts(v)
+            if parts is None or not any(p[0] == "lit" for p in parts) or not any(p[0] == "expr" for p in parts):
+                continue
+            free = {x.id for x in ast.walk(v) if isinstance(x, ast.Name)}
+            if all(stores.get(x, 0) <= 1 for x in free):
+                cands[n.targets[0].id] = (n, v)
+    if not cands:
+        return fn
+
+    class S(ast.NodeTransformer):
+        def visit_Name(self, node):
+            if isinstance(node.ctx, ast.Load) and node.id in cands:
+                a, v = cands[node.id]
+                if (node.lineno, node.col_offset) > (a.end_lineno or a.lineno, a.end_col_offset or 0):
+                    return ast.copy_location(copy.deepcopy(v), node)
+            return node
+    for _ in range(3):
+        fn = S().visit(fn)
+    ast.fix_missing_locations(fn)
+    return fn
 
 
 def starred_format(text, args):
@@ -177,3 +226,373 @@ def inline_call(ix, mod, call, depth=0):
     expr = _Sub(mapping).visit(expr)
     ast.fix_missing_locations(expr)
     return expr, f
+
+
+def local_names(fn):
+    """names bound anywhere in the function (assignments, loop / comprehension / with targets), excluding parameters"""
+    out = set()
+    for n in ast.walk(fn):
+        if isinstance(n, ast.Name) and isinstance(n.ctx, ast.Store):
+            out.add(n.id)
+    return out
+
+
+def alpha(nodes, locals_):
+    """source text of the statement / expression list with local names replaced by v0, v1, ... in order of first occurrence"""
+    mapping = {}
+
+    class R(ast.NodeTransformer):
+        def visit_Name(self, node):
+            if node.id in locals_:
+                if node.id not in mapping:
+                    mapping[node.id] = "v%d" % len(mapping)
+                return ast.copy_location(ast.Name(id=mapping[node.id], ctx=node.ctx), node)
+            return node
+    out = []
+    for n in nodes:
+        m = R().visit(copy.deepcopy(n))
+        out.append(" ".join(u(m).split()))
+    return out
+
+
+def alpha_of_source(src, locals_):
+    return alpha(ast.parse(src).body, locals_)
+
+
+# ------------------------------------------------------------------------------------------------ statement-level helper inlining
+class _Rename(ast.NodeTransformer):
+    def __init__(self, names, exprs):
+        self.names, self.exprs = names, exprs      # names: local -> new local name ; exprs: parameter -> argument expression
+
+    def visit_Name(self, node):
+        if node.id in self.exprs and isinstance(node.ctx, ast.Load):
+            return copy.deepcopy(self.exprs[node.id])
+        if node.id in self.names:
+            return ast.copy_location(ast.Name(id=self.names[node.id], ctx=node.ctx), node)
+        return node
+
+
+def _stored_names(node):
+    out = set()
+    for n in ast.walk(node):
+        if isinstance(n, ast.Name) and isinstance(n.ctx, ast.Store):
+            out.add(n.id)
+        elif isinstance(n, ast.arg):
+            out.add(n.arg)
+    return out
+
+
+def _shallow_returns(stmts):
+    out = []
+    todo = list(stmts)
+    while todo:
+        s = todo.pop()
+        if isinstance(s, (ast.FunctionDef, ast.AsyncFunctionDef, ast.ClassDef, ast.Lambda)):
+            continue
+        if isinstance(s, ast.Return):
+            out.append(s)
+        todo.extend(ast.iter_child_nodes(s))
+    return out
+
+
+def _has_return(node):
+    return bool(_shallow_returns([node]))
+
+
+class _Abort(Exception):
+    pass
+
+
+def _tailify(stmts, k, after):
+    """statements equivalent to: run stmts; at `return e` continue with k(e); when the block falls through continue with `after`
+    (early returns turn into if/else nesting; the continuation is duplicated into the branches that reach it)"""
+    out = []
+    for i, s in enumerate(stmts):
+        if isinstance(s, ast.Return):
+            return out + k(s.value)
+        if isinstance(s, ast.Raise):
+            return out + [s]
+        if isinstance(s, ast.If) and _has_return(s):
+            rest = _tailify(stmts[i + 1:], k, after)
+            body = _tailify(s.body, k, rest)
+            orelse = _tailify(s.orelse, k, rest)
+            return out + [ast.copy_location(ast.If(test=s.test, body=body or [ast.Pass()], orelse=orelse), s)]
+        if _has_return(s):
+            raise _Abort()              # return from inside a loop / try / with / match: not a tail shape
+        out.append(s)
+    return out + copy.deepcopy(after)
+
+
+# ------------------------------------------------------------------------------------------------ match statements -> if chains
+def desugar_match(fn):
+    """`match x: case C(): ... case A() | B() if g: ... case "lit": ... case _: ...`  ->  if/elif chain over isinstance / == tests.
+    Only matches whose subject is a plain name/attribute and whose patterns are of those forms are rewritten."""
+    def test_of(subject, pat):
+        if isinstance(pat, ast.MatchClass) and not pat.patterns and not pat.kwd_patterns:
+            return ast.Call(func=ast.Name(id="isinstance", ctx=ast.Load()), args=[copy.deepcopy(subject), copy.deepcopy(pat.cls)], keywords=[])
+        if isinstance(pat, ast.MatchValue):
+            return ast.Compare(left=copy.deepcopy(subject), ops=[ast.Eq()], comparators=[copy.deepcopy(pat.value)])
+        if isinstance(pat, ast.MatchSingleton):
+            return ast.Compare(left=copy.deepcopy(subject), ops=[ast.Is()], comparators=[ast.Constant(value=pat.value)])
+        if isinstance(pat, ast.MatchOr):
+            subs = [test_of(subject, q) for q in pat.patterns]
+            if any(t is None for t in subs):
+                return None
+            if all(isinstance(t, ast.Call) for t in subs):
+                return ast.Call(func=ast.Name(id="isinstance", ctx=ast.Load()), args=[copy.deepcopy(subject), ast.Tuple(elts=[t.args[1] for t in subs], ctx=ast.Load())], keywords=[])
+            return ast.BoolOp(op=ast.Or(), values=subs)
+        if isinstance(pat, ast.MatchAs) and pat.pattern is None and pat.name is None:
+            return True
+        return None
+
+    class T(ast.NodeTransformer):
+        def visit_Match(self, node):
+            self.generic_visit(node)
+            if not isinstance(node.subject, (ast.Name, ast.Attribute)):
+                return node
+            arms = []
+            for c in node.cases:
+                t = test_of(node.subject, c.pattern)
+                if t is None:
+                    return node
+                if c.guard is not None:
+                    t = c.guard if t is True else ast.BoolOp(op=ast.And(), values=[t, c.guard])
+                arms.append((t, c.body))
+            chain = None
+            for t, body in reversed(arms):
+                if t is True:
+                    chain = list(body)
+                else:
+                    chain = [ast.If(test=t, body=list(body), orelse=chain or [])]
+            if chain is None:
+                return node
+            for c in chain:
+                ast.copy_location(c, node)
+                ast.fix_missing_locations(c)
+            return chain
+
+    fn = T().visit(fn)
+    ast.fix_missing_locations(fn)
+    return fn
+
+
+# ------------------------------------------------------------------------------------------------ loops over constant tables
+def unroll_const_loops(fn, consts, single=frozenset(), limit=64):
+    """`for a, b in TABLE: body` with TABLE a literal tuple/list (in place, or a module constant assigned once) and a body without
+    break/continue/rebinding of the loop names  ->  the body repeated with the row's literals substituted.  `getattr(x, "name")` with a
+    constant name is folded to x.name.  Exact for such loops: iteration order and early returns are preserved."""
+    class Fold(ast.NodeTransformer):
+        def visit_Call(self, node):
+            self.generic_visit(node)
+            if isinstance(node.func, ast.Name) and node.func.id == "getattr" and len(node.args) == 2 and isinstance(node.args[1], ast.Constant) \
+                    and isinstance(node.args[1].value, str) and node.args[1].value.isidentifier() and not node.keywords:
+                return ast.copy_location(ast.Attribute(value=node.args[0], attr=node.args[1].value, ctx=ast.Load()), node)
+            return node
+
+    class U(ast.NodeTransformer):
+        def visit_For(self, node):
+            self.generic_visit(node)
+            it = node.iter
+            if isinstance(it, ast.Name) and it.id in consts and it.id in single:
+                it = consts[it.id]
+            if not isinstance(it, (ast.Tuple, ast.List)) or node.orelse or len(it.elts) > limit or not it.elts:
+                return node
+            names = [node.target.id] if isinstance(node.target, ast.Name) else (
+                [e.id for e in node.target.elts] if isinstance(node.target, ast.Tuple) and all(isinstance(e, ast.Name) for e in node.target.elts) else None)
+            if names is None:
+                return node
+            for n in ast.walk(node):
+                if n is not node and isinstance(n, (ast.Break, ast.Continue, ast.For, ast.While)):
+                    return node
+            for b in node.body:
+                if _stored_names(b) & set(names):
+                    return node
+            out = []
+            for row in it.elts:
+                if isinstance(row, ast.Starred):
+                    return node
+                if isinstance(node.target, ast.Name):
+                    vals = [row]
+                else:
+                    if not isinstance(row, (ast.Tuple, ast.List)) or len(row.elts) != len(names):
+                        return node
+                    vals = row.elts
+                ren = _Rename({}, dict(zip(names, vals)))
+                for b in node.body:
+                    out.append(Fold().visit(ren.visit(copy.deepcopy(b))))
+            for o in out:
+                ast.copy_location(o, node)
+                ast.fix_missing_locations(o)
+            return out
+
+    fn = U().visit(fn)
+    ast.fix_missing_locations(fn)
+    return fn
+
+
+def _calls_outside_scopes(node):
+    """Call nodes of a simple statement that are evaluated exactly when the statement runs (not inside lambdas / comprehensions /
+    the short-circuited operands of and/or/if-expressions)"""
+    out = []
+
+    def walk(n, cond):
+        if isinstance(n, (ast.Lambda, ast.ListComp, ast.SetComp, ast.DictComp, ast.GeneratorExp, ast.FunctionDef, ast.ClassDef)):
+            return
+        if isinstance(n, ast.Call) and not cond:
+            out.append(n)
+        if isinstance(n, ast.BoolOp):
+            walk(n.values[0], cond)
+            for v in n.values[1:]:
+                walk(v, True)
+            return
+        if isinstance(n, ast.IfExp):
+            walk(n.test, cond)
+            walk(n.body, True)
+            walk(n.orelse, True)
+            return
+        for c in ast.iter_child_nodes(n):
+            walk(c, cond)
+    walk(node, False)
+    return out
+
+
+class _ReplaceNode(ast.NodeTransformer):
+    def __init__(self, old, new):
+        self.old, self.new = old, new
+
+    def visit(self, node):
+        if node is self.old:
+            return self.new
+        return self.generic_visit(node)
+
+
+def inline_function(ix, f, depth=2, _stack=(), keep=frozenset()):
+    """deep copy of f.node in which calls to package helpers the rules do not know by name are replaced by the helper's body: the
+    statement containing the call becomes the continuation of every `return` of the helper (tail shapes only: returns inside loops,
+    try blocks, recursion, generators, *args are left alone)"""
+    fn = copy.deepcopy(f.node)
+    counter = [0]
+    caller_names = _stored_names(fn)
+
+    def resolve(call):
+        g = None
+        if isinstance(call.func, ast.Name):
+            q = ix.resolve_name(f.mod, call.func.id)
+            g = ix.funcs.get(q)
+        elif isinstance(call.func, ast.Attribute) and isinstance(call.func.value, ast.Name) and call.func.value.id in ("self", "cls") and f.cls:
+            g = ix.funcs.get("%s.%s" % (f.cls, call.func.attr))
+        if g is None or g.qual == f.qual or g.qual in _stack or g.qual in keep or g.name.startswith("__"):
+            return None
+        decos = [u(d) for d in g.node.decorator_list]
+        if any(d not in ("staticmethod", "classmethod") for d in decos):
+            return None
+        for n in ast.walk(g.node):
+            if isinstance(n, (ast.Yield, ast.YieldFrom, ast.Global, ast.Nonlocal, ast.Await)):
+                return None
+            if isinstance(n, ast.Call) and isinstance(n.func, ast.Name) and n.func.id == g.name:
+                return None
+        return g
+
+    def expand(call, k, same_name=None):
+        """k(value expr or None) -> statements continuing after the helper returned that value"""
+        g = resolve(call)
+        if g is None:
+            return None
+        gnode = desugar_match(copy.deepcopy(getattr(g, "orig", None) or g.node))
+        body = [s for s in gnode.body if not (isinstance(s, ast.Expr) and isinstance(s.value, ast.Constant))]
+        if not body:
+            return None
+        params = [a.arg for a in gnode.args.posonlyargs + gnode.args.args]
+        if g.cls and "staticmethod" not in [u(d) for d in gnode.decorator_list] and params and params[0] in ("self", "cls"):
+            params = params[1:]
+        if any(isinstance(a, ast.Starred) for a in call.args) or any(kw.arg is None for kw in call.keywords) or gnode.args.vararg or gnode.args.kwarg:
+            return None
+        mapping = dict(zip(params, call.args))
+        kwonly = [a.arg for a in gnode.args.kwonlyargs]
+        for kw in call.keywords:
+            mapping[kw.arg] = kw.value
+        defaults = gnode.args.defaults
+        for p_, d in zip(params[len(params) - len(defaults):], defaults):
+            mapping.setdefault(p_, d)
+        for a, d in zip(gnode.args.kwonlyargs, gnode.args.kw_defaults):
+            if d is not None:
+                mapping.setdefault(a.arg, d)
+        params = params + kwonly
+        if set(params) - set(mapping) or len(call.args) > len(params):
+            return None
+        helper_stores = set()
+        for s in body:
+            helper_stores |= _stored_names(s)
+        counter[0] += 1
+        names, exprs, pre = {}, {}, []
+        for p_ in params:
+            if p_ in helper_stores:
+                new = p_ if p_ not in caller_names else "_h%d_%s" % (counter[0], p_)
+                names[p_] = new
+                pre.append(ast.Assign(targets=[ast.Name(id=new, ctx=ast.Store())], value=copy.deepcopy(mapping[p_]), lineno=call.lineno, col_offset=0))
+            else:
+                exprs[p_] = mapping[p_]
+        for nm in helper_stores - set(params):
+            if nm in caller_names and nm != same_name:
+                names[nm] = "_h%d_%s" % (counter[0], nm)
+        ren = _Rename(names, exprs)
+        body = [ren.visit(copy.deepcopy(s)) for s in body]
+        try:
+            out = pre + _tailify(body, k, k(None))
+        except _Abort:
+            return None
+        for s in out:
+            ast.fix_missing_locations(s)
+            caller_names.update(_stored_names(s))
+        return out or [ast.Pass(lineno=call.lineno, col_offset=0)]
+
+    def simple_expand(s):
+        if isinstance(s, ast.Expr) and isinstance(s.value, ast.Call):
+            r = expand(s.value, lambda v: [])
+            if r is not None:
+                return r
+        if isinstance(s, ast.Assign) and len(s.targets) == 1 and isinstance(s.value, ast.Call) and resolve(s.value) is not None:
+            tgt = s.targets[0]
+
+            def k(v):
+                if isinstance(v, ast.Name) and isinstance(tgt, ast.Name) and v.id == tgt.id:
+                    return []
+                return [ast.copy_location(ast.Assign(targets=[copy.deepcopy(tgt)], value=v if v is not None else ast.Constant(value=None)), s)]
+            return expand(s.value, k, same_name=tgt.id if isinstance(tgt, ast.Name) else None)
+        if isinstance(s, (ast.Expr, ast.Assign, ast.AugAssign, ast.Return, ast.AnnAssign)):
+            for call in _calls_outside_scopes(s):
+                # k works on a copy of s: locate the call by its position in the walk
+                idx = [i for i, n in enumerate(ast.walk(s)) if n is call][0]
+
+                def k(v, idx=idx):
+                    c = copy.deepcopy(s)
+                    tgt = list(ast.walk(c))[idx]
+                    return [_ReplaceNode(tgt, v if v is not None else ast.Constant(value=None)).visit(c)]
+                rep = expand(call, k)
+                if rep is not None:
+                    return rep
+        return None
+
+    def block(stmts, d):
+        out = []
+        for s in stmts:
+            rep = simple_expand(s) if d > 0 else None
+            if rep is not None:
+                out.extend(block(rep, d - 1))
+                continue
+            for field in ("body", "orelse", "finalbody"):
+                sub = getattr(s, field, None)
+                if isinstance(sub, list) and sub and isinstance(sub[0], ast.stmt):
+                    setattr(s, field, block(sub, d))
+            if isinstance(s, ast.Try):
+                for h in s.handlers:
+                    h.body = block(h.body, d)
+            if isinstance(s, ast.Match):
+                for c in s.cases:
+                    c.body = block(c.body, d)
+            out.append(s)
+        return out
+
+    fn.body = block(fn.body, depth)
+    ast.fix_missing_locations(fn)
+    return fn
